@@ -30,6 +30,13 @@ withdrawn.  C01.9 (shared with C09.3/C09.4): the stored server-to-instance
 view follows the model - Cell.schedule() takes its before-snapshot before
 and its after-snapshot after every routine that may change a placement, and
 placement changes outside a cycle rewrite or delete the record.
+Added by the seeding rounds - C01.8: a server object leaves the model only
+after remove_all() and remove_node(); C01.9 (shared with C09/C10):
+Cell.schedule() takes its before-snapshot before and its after-snapshot after
+every routine that may change a placement, the duplicate repair of
+restore_placements treats every server of a duplicated instance alike, no
+record delete is reachable after a record write of one publication, and
+restore_placement reports every instance it put back.
 Does NOT decide the arithmetic identity free = capacity - sum(demand) over
 histories nor value-level behaviour of the unit parsers.
 """
